@@ -462,6 +462,53 @@ func k5() *sched.Scenario {
 		}}
 }
 
-func TestC12Sched(t *testing.T) { run(t, "C12", k1(), k1b()) }
+// k6: Close racing the *start* of a transaction (between the insertion into the
+// table, the first write, the arming of the timer and the wait): the caller
+// returns in every schedule - with the closed error, or, when Close came first,
+// with the time-out after the seven transmissions nobody answers.
+func k6() *sched.Scenario {
+	return &sched.Scenario{Name: "K6-close-vs-transaction-start", Bound: bound(), FreeBound: 3, Opt: opt,
+		Body: func(*vsched.Sched) (func() []string, func()) {
+			w := newCWorld(100 * time.Millisecond)
+			var nt notes
+			vsched.Go("driver", func() {
+				vsched.Mark()
+				vsched.Go("app", func() {
+					req := bindingReq()
+					res, err := w.cl.PerformTransaction(req, w.srvAddr, false)
+					switch {
+					case err != nil:
+						nt.set("app", "error:"+errKind(err))
+					case res.Msg == nil || res.Msg.TransactionID != req.TransactionID:
+						nt.set("app", "foreign-response")
+					default:
+						nt.set("app", "response")
+					}
+				})
+				vsched.Go("closer", func() {
+					w.cl.Close()
+					nt.set("closer", "done")
+				})
+				vsched.IdleSleep(10 * time.Second) // lets the virtual clock run through the whole retransmission timetable
+			})
+
+			return func() []string {
+				var out []string
+				switch a := nt.get("app"); {
+				case a == "":
+					out = append(out, "c12:transaction-never-returned")
+				case !strings.HasPrefix(a, "error:"):
+					out = append(out, "c12:unanswered-transaction-returned-"+a)
+				}
+				if nt.get("closer") != "done" {
+					out = append(out, "c12:close-never-returned")
+				}
+
+				return out
+			}, func() { _ = w.cs.Close() }
+		}}
+}
+
+func TestC12Sched(t *testing.T) { run(t, "C12", k1(), k1b(), k6()) }
 func TestC13Sched(t *testing.T) { run(t, "C13", k2(), k3(), k5()) }
-func TestC18Client(t *testing.T) { run(t, "C18", k1(), k1b(), k2(), k3(), k5()) }
+func TestC18Client(t *testing.T) { run(t, "C18", k1(), k1b(), k2(), k3(), k5(), k6()) }
